@@ -309,9 +309,9 @@ pub fn gen_c07(run: &mut Run, seed: u64, thorough: bool) {
         ]
     };
     // ---------------- token: with and without allowances ----------------
-    for variant in 0..3 {
-        let allowance = variant >= 1;
-        let st = ["no-allowance", "with-allowance", "revoked-allowance"][variant];
+    for variant in 0..4 {
+        let allowance = variant >= 1 && variant <= 2;
+        let st = ["no-allowance", "with-allowance", "revoked-allowance", "expired-allowance"][variant];
         run.scenario("tk", &format!("c07-tk-{st}"));
         let maxlive: u32 = new_env().storage().max_ttl();
         run.op("time 1000 100", "time");
@@ -322,6 +322,15 @@ pub fn gen_c07(run: &mut Run, seed: u64, thorough: bool) {
         if allowance {
             run.op(&format!("tk.approve {} {} 300 500 {}", subject.tok(), counter.tok(), subject.tok()), "setup-approve");
             run.op(&format!("tk.approve {} {} 300 500 {}", subject.tok(), stranger.tok(), subject.tok()), "setup-approve");
+        }
+        if variant == 3 {
+            // short-lived allowances of EXACTLY the amounts tried below, expiring at ledger 105 (the entry itself lives longer
+            // in storage); then the ledger moves past the expiration: the authorisation has lapsed
+            run.op(&format!("tk.approve {} {} 10 105 {}", subject.tok(), counter.tok(), subject.tok()), "setup-approve-short");
+            run.op(&format!("tk.approve {} {} 10 105 {}", subject.tok(), stranger.tok(), subject.tok()), "setup-approve-short");
+            run.op("time 1000 105", "time");
+            run.op(&format!("tk.allowance {} {}", subject.tok(), counter.tok()), "q");
+            run.op("time 1000 106", "time");
         }
         if variant == 2 {
             // the usual ways of revoking: amount 0 with an expiration in the past / at ledger 0 / still in the future
